@@ -299,3 +299,190 @@ pub fn z_text(t: &str) -> Out {
         0,
     ]
 }
+
+// ---------------------------------------------------------------------------------------------------------------
+// part 2: control flow, references and mutation (the interpreter itself rather than library models)
+
+#[derive(Clone, Copy, PartialEq, Eq, Debug, Default)]
+pub struct Pair(pub [u32; 2]);
+
+#[derive(Clone, Copy, PartialEq, Eq, PartialOrd, Ord, Debug)]
+pub enum Kind {
+    Low = 1,
+    Mid = 5,
+    High = 9,
+}
+
+pub trait Score {
+    fn base(&self) -> u32;
+    fn score(&self) -> u32 {
+        self.base() * 2 + 1
+    }
+}
+
+impl Score for Pair {
+    fn base(&self) -> u32 {
+        self.0[0] ^ self.0[1]
+    }
+}
+
+impl Score for u32 {
+    fn base(&self) -> u32 {
+        *self & 0xFF
+    }
+    fn score(&self) -> u32 {
+        self.base() + 7
+    }
+}
+
+fn generic_score<T: Score>(t: &T) -> u32 {
+    t.score()
+}
+
+fn kind_of(x: u32) -> Kind {
+    if x < 3 {
+        Kind::Low
+    } else if x < 6 {
+        Kind::Mid
+    } else {
+        Kind::High
+    }
+}
+
+pub fn z_loops(a: In) -> Out {
+    let mut out = [0u64; 8];
+    // early exit with state
+    let mut acc = 0u64;
+    for (i, x) in a.iter().enumerate() {
+        if *x == 7 {
+            out[0] = i as u64 + 100;
+            break;
+        }
+        if *x & 1 == 0 {
+            continue;
+        }
+        acc += u64::from(*x);
+    }
+    out[1] = acc;
+    // while with a data-dependent bound
+    let mut n = (a[0] & 7) as u64;
+    let mut steps = 0u64;
+    while n > 1 {
+        n = if n & 1 == 0 { n / 2 } else { 3 * n + 1 };
+        steps += 1;
+        if steps > 20 {
+            break;
+        }
+    }
+    out[2] = steps;
+    // labelled break out of a nested loop
+    'outer: for i in 0..6 {
+        for j in (i + 1)..6 {
+            if a[i] == a[j] {
+                out[3] = (i * 10 + j) as u64 + 1;
+                break 'outer;
+            }
+        }
+    }
+    // loop with break value
+    let mut k = 0usize;
+    out[4] = loop {
+        if k >= 6 || a[k] > 4 {
+            break k as u64;
+        }
+        k += 1;
+    };
+    // iterator in a while-let with a second cursor
+    let mut it = a.iter().skip(1);
+    let mut prev = a[0];
+    let mut rises = 0u64;
+    while let Some(x) = it.next() {
+        if *x > prev {
+            rises += 1;
+        }
+        prev = *x;
+    }
+    out[5] = rises;
+    out[6] = (0..6).filter(|i| a[*i] as usize == *i).count() as u64;
+    out[7] = (1..=3).map(|i| u64::from(a[i]) * i as u64).sum();
+    out
+}
+
+pub fn z_mutation(a: In) -> Out {
+    let mut b = a;
+    for x in b.iter_mut() {
+        *x = x.wrapping_mul(3) & 0xFFFF;
+    }
+    let mut c = a;
+    for x in &mut c {
+        if *x & 1 == 1 {
+            *x += 1;
+        }
+    }
+    let mut p = Pair([a[0], a[1]]);
+    let q = p;
+    p.0[1] = a[2];
+    core::mem::swap(&mut p.0[0], &mut b[0]);
+    let old = core::mem::replace(&mut c[1], 99);
+    let taken = core::mem::take(&mut c[2]);
+    let r = &mut b[3];
+    *r ^= 0xF0;
+    let rr = &r;
+    let via = **rr + 1;
+    let mut count = 0u32;
+    let mut bump = |d: u32| {
+        count += d;
+        count
+    };
+    let b1 = bump(a[4] & 3);
+    let b2 = bump(2);
+    [
+        u64::from(b[0]) << 32 | u64::from(b[5]),
+        u64::from(c[0]) << 32 | u64::from(c[5]),
+        u64::from(p.0[0]) << 32 | u64::from(p.0[1]),
+        u64::from(q.0[0]) << 32 | u64::from(q.0[1]),
+        u64::from(old) << 32 | u64::from(taken),
+        u64::from(c[1]) << 32 | u64::from(c[2]),
+        u64::from(via) << 32 | u64::from(b[3]),
+        u64::from(b1) << 32 | u64::from(b2) | u64::from(count) << 16,
+    ]
+}
+
+pub fn z_dispatch(a: In) -> Out {
+    let p = Pair([a[0], a[1]]);
+    let k0 = kind_of(a[2]);
+    let k1 = kind_of(a[3]);
+    let best = if k0 >= k1 { k0 } else { k1 };
+    let grid = [[a[0], a[1], a[2]], [a[3], a[4], a[5]]];
+    let (r, c) = ((a[0] & 1) as usize, (a[1] % 3) as usize);
+    let tup = (a[4], (a[5], p));
+    let (x, (y, Pair([z, _]))) = tup;
+    [
+        u64::from(generic_score(&p)),
+        u64::from(generic_score(&a[2])),
+        u64::from(p.score()) << 32 | u64::from(a[3].score()),
+        k0 as u64 * 100 + k1 as u64 * 10 + best as u64,
+        u64::from(k0 == k1) | u64::from(k0 < k1) << 1 | u64::from(matches!(k0, Kind::Low | Kind::High)) << 2,
+        u64::from(grid[r][c]) << 32 | u64::from(grid[1 - r][2 - c]),
+        u64::from(x) + u64::from(y) * 7 + u64::from(z) * 49,
+        u64::from(p == Pair([a[1], a[0]])) | u64::from(p == Pair::default()) << 1,
+    ]
+}
+
+/// arithmetic that overflows: only compared against a release build (wrapping there, panicking in debug)
+pub fn z_wrap(a: In) -> Out {
+    let b = (a[0] & 0xFF) as u8;
+    let c = (a[1] & 0xFF) as u8;
+    let w = (a[2] & 0xFFFF) as u16;
+    let i = (a[3] & 0xFF) as i8;
+    [
+        u64::from(b + c),
+        u64::from(b * c),
+        u64::from(b - c),
+        u64::from(w * w),
+        (i + i) as u8 as u64,
+        (-i) as u8 as u64,
+        u64::from(a[4] * a[5]),
+        u64::from(a[4] << (a[5] & 63)) | u64::from(a[0] - a[1]) << 32,
+    ]
+}
